@@ -172,6 +172,11 @@ func parseDecl(name, doc, tier string) *HarnessDecl {
 	hd.Cfg.IntMode = get("arith") == "int"
 	hd.Cfg.AllocAlpha = atoi(get("alloc_alpha"), 64)
 	hd.Cfg.AllocBeta = atoi(get("alloc_beta"), 1<<16)
+	hd.Cfg.ConcMax = atoi(get("concmax"), 0)
+	hd.Cfg.DiffSamples = atoi(get("diff"), 2)
+	if tier == "thorough" {
+		hd.Cfg.DiffSamples = atoi(get("diff"), 6)
+	}
 	if ex := get("expect"); ex != "" {
 		hd.Cfg.Expect = strings.Split(ex, ",")
 	}
